@@ -159,6 +159,26 @@ def check(ctx, rep):
     loops = [n for n in sgm.body if isinstance(n, ast.For)]
     brk = [b for l in loops for b in own_nodes(l) if isinstance(b, ast.Break)]
     rep.ob('search.all-scalars', 'Scalars.get_memory searches all scalars', len(loops) == 1 and not brk, '', ctx.where(sgm))
+    # ---- assignment never makes two variables share one string descriptor ----------------------------
+    # LET is the only statement that stores an *expression value* that may already be another variable's
+    # string: a permanent (variable-owned) or FIELD string must be deep-copied before it is stored
+    let = ctx.fn(M + ':DataSegment.let_')
+    fll = ctx.flow(let)
+    copies = [a for a in own_nodes(let) if isinstance(a, ast.Assign) and norm(a.targets[0]) == 'value'
+              and 'from_str(value.dereference())' in norm(a.value) and '.new()' in norm(a.value)]
+    need = set(['self.strings.is_permanent(value)', 'self.strings.is_field_string(value)'])
+    ok = False
+    got = set()
+    if len(copies) == 1:
+        p_ = copies[0]._parent
+        if isinstance(p_, ast.If) and copies[0] in p_.body:
+            t = p_.test
+            got = set(norm(v) for v in (t.values if isinstance(t, ast.BoolOp) and isinstance(t.op, ast.Or) else [t]))
+            ok = need <= got and fll.knows(copies[0], 'isinstance(value, values.String)', True)
+    stores = [c for c in own_nodes(let) if isinstance(c, ast.Call) and norm(c.func) == 'self.set_variable' and len(c.args) == 3 and norm(c.args[2]) == 'value']
+    rep.ob('no-alias.let-copies-owned-strings', 'LET deep-copies a string that is already owned by a variable or a FIELD buffer before storing it',
+           ok and len(stores) == 1 and stores[0].lineno > copies[0].lineno,
+           'copy happens only for %s: B$=A$ leaves two descriptors on one address, and MID$/LSET on one changes the other' % sorted(got), ctx.where(let))
 
 
 def variants(ctx):
@@ -168,6 +188,8 @@ def variants(ctx):
         return lambda tree: f(mu.find_def(tree, f_name))
 
     return [
+        Va('let-copies-field-strings-only', 'break', M,
+           lambda tree: mu.replace_expr(mu.find_def(tree, 'DataSegment.let_'), mu.text_is('self.strings.is_permanent(value) or self.strings.is_field_string(value)'), 'self.strings.is_field_string(value)'), expect='no-alias'),
         Va('scalars-stores-offsets', 'break', S,
            in_fn('Scalars.set', lambda fn: mu.replace_stmt(fn, mu.text_is('name_ptr = self._memory.var_current()'), 'name_ptr = self.current')), expect='units'),
         Va('arrays-varptr-drops-area-start', 'break', A,
